@@ -165,12 +165,17 @@ def generate(seeds=(1, 2, 3), tier='quick'):
     return g, stats
 
 
+def legendre_digits(l):
+    """decimal digits of the bound proved for LegendrePolynomial(l) on [-1, 1] (the float coefficients lose accuracy with l)"""
+    return 10 if l <= 12 else 8 if l <= 16 else 6 if l <= 20 else 4 if l <= 24 else 3
+
+
 def legendre_part(g, stats, FB, seeds, tier):
     """Legendre polynomials / zonal harmonics: scipy's float coefficients are within 1e-12 of the exact ones on [-1, 1]"""
     import sympy as sp
     from ..leangen import UNFOLD
     xs = sp.Symbol('x')
-    degs = range(0, 7) if tier == 'quick' else range(0, 13)
+    degs = (list(range(0, 7)) + [24]) if tier == 'quick' else list(range(0, 27))
     g.raw('open NdeVerif in\n')
     for l in degs:
         def scen(w, l=l):
@@ -195,10 +200,12 @@ def legendre_part(g, stats, FB, seeds, tier):
         ds = ', '.join(lit(q) for q in d)
         bs = ', '.join(lit(abs(q)) for q in d)
         total = sum(abs(q) for q in d)
-        if total > Fraction(1, 10 ** 10):
+        # scipy's float coefficients grow like 2.7^l, so their absolute rounding error does too: explicit bound per degree
+        digits = legendre_digits(l)
+        if total > Fraction(1, 10 ** digits):
             g.failures.append((f'legendre{l}_close', f'coefficients differ from the exact Legendre coefficients by {float(total)}'))
         name = f'legendre{l}_close'
-        stmt = f'|Ex.eval I (env [x]) legP{l} - ({ref})| ≤ (1:ℝ) / (10:ℝ) ^ 10'
+        stmt = f'|Ex.eval I (env [x]) legP{l} - ({ref})| ≤ (1:ℝ) / (10:ℝ) ^ {digits}'
         g.raw(f'''theorem {name} (I : Interp) (x : ℝ) (hx : |x| ≤ 1) :
     {stmt} := by
   have e0_ : env [x] 0 = x := rfl
@@ -210,9 +217,10 @@ def legendre_part(g, stats, FB, seeds, tier):
   · repeat' constructor
     all_goals (rw [abs_le]; constructor <;> norm_num)
   · norm_num [List.sum_cons, List.sum_nil]
-''', [Obligation(name, 'bound', stmt, f'LegendrePolynomial({l}) (scipy float coefficients) is within 1e-10 of the exact Legendre polynomial P_{l} on [-1, 1]')])
-    # zonal harmonics: column k = c_k * P_k(cos θ) with c_k² within 1e-15 of (2k+1)/(4π)
-    zdegs = list(degs)
+''', [Obligation(name, 'bound', stmt, f'LegendrePolynomial({l}) (scipy float coefficients) is within 1e-{digits} of the exact Legendre polynomial P_{l} on [-1, 1]')])
+    # zonal harmonics: column k = c_l * P_l(cos θ) for the k-th REQUESTED degree l (the list is deliberately not ascending),
+    # with c_l² within 1e-15 of (2l+1)/(4π)
+    zdegs = sorted(degs, key=lambda l: ((l * 7 + 3) % 5, -l))
 
     def scen(w):
         th = w.coord('th', 0.1, 3.0); ph = w.coord('ph', 0.0, 6.2)
@@ -255,7 +263,7 @@ def zonal_laplacian_part(g, stats, FB, ops, seeds, tier):
     import sympy as sp
     import numpy as np
     from ..leangen import UNFOLD
-    degs = [0, 2, 3] if tier == 'quick' else [0, 1, 2, 3, 4, 5, 6, 8]
+    degs = [3, 0, 2] if tier == 'quick' else [5, 0, 8, 2, 1, 6, 3, 4]      # requested order, deliberately not ascending
     K = len(degs)
 
     def scen_op(w):
@@ -387,18 +395,36 @@ def search(seed, tier):
     if not np.allclose(G, math.pi * np.eye(25), atol=1e-6):
         i, j = np.unravel_index(np.abs(G - math.pi * np.eye(25)).argmax(), G.shape)
         found.append(dict(case='orthogonality / common normalisation (Gram matrix != pi * I)', i=int(i), j=int(j), value=float(G[i, j])))
-    # zonal and Legendre
-    degs = list(range(13))
-    Z = FB.ZonalSphericalHarmonics(degrees=degs)(th, ph).detach().numpy()
-    for l in degs:
+    # zonal and Legendre (tolerance per degree: the float coefficients lose accuracy as the degree grows)
+    degs = list(range(27))
+    tol = lambda l: 10.0 ** (1 - legendre_digits(l))
+    order = sorted(degs, key=lambda l: ((l * 3 + 1) % 7, -l))          # requested order, not ascending
+    Z = FB.ZonalSphericalHarmonics(degrees=order)(th, ph).detach().numpy()
+    for k, l in enumerate(order):
         ref = math.sqrt((2 * l + 1) / (4 * math.pi)) * eval_legendre(l, np.cos(thn))
-        if not np.allclose(Z[:, l], ref, rtol=1e-9, atol=1e-10):
-            found.append(dict(case='zonal harmonic', degree=l))
-    x = torch.tensor([[rng.uniform(-1, 1)] for _ in range(n)])
-    Lb = FB.LegendreBasis(max_degree=12)(x).numpy()
+        if not np.allclose(Z[:, k], ref, rtol=1e-9, atol=tol(l)):
+            found.append(dict(case='zonal harmonic (column k must be the k-th requested degree)', degree=l, column=k, degrees=order,
+                              got=Z[:, k].tolist(), want=ref.tolist()))
+    x = torch.tensor([[rng.uniform(-1, 1)] for _ in range(n - 1)] + [[0.0]])
+    Lb = FB.LegendreBasis(max_degree=26)(x).numpy()
     for l in degs:
-        if not np.allclose(Lb[:, l], eval_legendre(l, x.numpy().ravel()), rtol=1e-9, atol=1e-10):
-            found.append(dict(case='Legendre basis', degree=l))
+        if not np.allclose(Lb[:, l], eval_legendre(l, x.numpy().ravel()), rtol=1e-9, atol=tol(l)):
+            found.append(dict(case='Legendre basis', degree=l, x=x.reshape(-1).tolist(), got=Lb[:, l].tolist()))
+    # bases are functions of the VALUES of their arguments: refilling the same buffers in place and calling again
+    # gives what fresh tensors give
+    for nm, basis, k_args in (('RealSphericalHarmonics', FB.RealSphericalHarmonics(max_degree=4), 2), ('ZonalSphericalHarmonics', FB.ZonalSphericalHarmonics(max_degree=3), 2),
+                              ('RealFourierSeries', FB.RealFourierSeries(max_degree=3), 1), ('LegendreBasis', FB.LegendreBasis(max_degree=4), 1)):
+        bufs = [torch.tensor([[rng.uniform(0.2, 0.9)] for _ in range(n)]) for _ in range(k_args)]
+        for rep_ in range(3):
+            first = basis(*bufs).clone()
+            for b in bufs:
+                b.mul_(0.7).add_(0.21)
+            again = basis(*bufs)
+            fresh = basis(*[b.clone() for b in bufs])
+            if not torch.allclose(again, fresh, rtol=0, atol=1e-12):
+                found.append(dict(case='basis evaluated on refilled buffers differs from fresh tensors with the same values', basis=nm,
+                                  call=rep_ + 2, max_abs_diff=float((again - fresh).abs().max())))
+                break
     # basis laplacians vs full laplacians with coefficient networks
     from neurodiffeq.networks import FCNN
     torch.manual_seed(seed)
@@ -427,7 +453,7 @@ def search(seed, tier):
         out1 = basis(*[a[:1] for a in args])
         if tuple(out1.shape) != (1, k):
             found.append(dict(case='basis output shape for a single point', basis=type(basis).__name__, shape=list(out1.shape)))
-    for degs1 in ([3], [0], [2, 5]):
+    for degs1 in ([3], [0], [2, 5], [4, 0, 2]):
         net1 = FCNN(1, len(degs1), hidden_units=(6,))
         a = FB.ZonalSphericalHarmonicsLaplacian(degrees=degs1)(net1(r), r, th, ph)
         u = torch.sum(net1(r) * FB.ZonalSphericalHarmonics(degrees=degs1)(th, ph).reshape(n, len(degs1)), dim=1, keepdim=True)
@@ -442,6 +468,11 @@ def search(seed, tier):
         if not torch.allclose(a, b, rtol=1e-6, atol=1e-6):
             found.append(dict(case='FourierLaplacian vs polar laplacian', max_degree=md))
     return found
+
+
+def runtime_checks():
+    """the numeric observations of the search are cheap and deterministic: they run on every check, not only after a broken proof"""
+    return search(1, 'quick')
 
 
 def check(tier, seed):
